@@ -22,6 +22,11 @@ func runC17(p *Prog, r *Report) {
 	c17R4(p, r)
 	c17R5(p, r)
 	c17R6(p, r)
+	const r7 = "C17-R7"
+	r.Rule(r7, "lock balance in packages dns and cache: Lock/RLock only with the mutex not held by the function, Unlock/RUnlock only with the matching lock held, released at every exit (or by a deferred call) — every early return of the lookup path included")
+	nb := lockBalance(p, r, r7, "dns", nil) + lockBalance(p, r, r7, "cache", nil)
+	r.Count("lock_operations_checked", nb)
+	r.Floor(r7, 4)
 }
 
 func c17R1(p *Prog, r *Report) {
